@@ -1,7 +1,7 @@
 """C20 — compiled and interpreted execution agree (structural clauses)."""
 from . import scopes
 from ..core.report import DOMAIN_D
-from ..rules import eager, buffers, aabbtree
+from ..rules import eager, buffers, aabbtree, safediv
 from .common import e1
 
 
@@ -21,6 +21,7 @@ def run(idx, rep, tier):
     buffers.r_compact(idx, rep, floor=8)
     buffers.r_emptyfill(idx, rep, floor=6)
     aabbtree.r_sentinel(idx, rep)
+    safediv.r_sqrtdomain(idx, rep, floor=10, unknown_ceiling=10)      # math.sqrt: ValueError interpreted, NaN compiled
     # decorator inventory
     njit = [f for f in idx.all_functions() if f.njit]
     eagerf = [f for f in njit if f.eager]
